@@ -38,6 +38,22 @@ STRENGTHENED = {
     'C17_4': 'pre-emptive: a serving application that answers a read from inside the notify callback',
     'C18_3': 'pre-emptive: boundary seeds 0x0000 and 0xFFFF handed out by the installed seed generator',
     'C19_4': 'pre-emptive: client source address drawn from {0x00, 0x01, 253, 0xF9, random}',
+    # ---- round 3 (one agent per source file)
+    'C05_5': 'missed at first (ownership of the destination ends while an RTS/CTS session towards it is open); C05 now opens a session towards an address owned by an ECU-level listener, removes the listener after the first data packet and requires silence and no delivery for the remaining packets',
+    'C10_6': 'missed at first (an inbound time-out releases an outbound session number only while that number is in use); the J1939-22 final batch is now kept open by holding receivers while inbound sessions with the same numbers, opened by a node that falls silent, time out, and the call beyond capacity is made after that',
+    'C11_5': 'missed at first (needs the job thread pre-empted between two source lines of its pass while the application submits); C11 now parks the job thread at its k-th source line (counted while a buffered group waits) and submits a group for the same buffer at that instant - which exposed a genuine defect on the unchanged tree (e92646e); the change is evaluated on the commit it was written for (264c0da), the repair rewrote the same lines',
+    'C11_6': 'missed at first (the payload list is kept by reference); the C11 application now refills the list it passed as soon as send_pgn has returned, in half of the runs',
+    'C04_5': 'reported with exit code 2 at first: the endless claim exchange ran into the simulator\'s event budget, which was classed as a harness error; exhausting the event budget is now violation clause `runaway`; C04 also gained the clause that the only CA to announce an address keeps it',
+    'C04_6': 'missed by C04 at first (caught by C14): NAMEs were unrelated 64-bit values; C04 now also draws sibling NAMEs that differ in a single NAME field (identity number, manufacturer code, instances, function, ...)',
+    'C17_6': 'missed at first (needs the next transaction to start before the receive thread has sent the closing DM14); C17 now issues transactions with no pause at all and the kernel has the eager-wake schedule fault (the woken thread runs at once, the waker is pre-empted right after put())',
+    'C17_5': 'pre-emptive: the serving application keeps one list per memory object and hands the same list to respond() every time that object is read; the same object is read repeatedly',
+    'C17_8': 'pre-emptive: served bytes that encode the limits of the signed range at every object size',
+    'C19_5': 'pre-emptive: the installed seed generator returns a different seed on every call',
+    'C16_5': 'pre-emptive: the DM1 sender\'s callback may be a bound method; subscribe / unsubscribe / subscribe histories on the receiving side',
+    'C16_6': 'as C16_5',
+    'C01_7': 'pre-emptive: the simulated queue honours maxsize (a put on a full queue parks the caller; in reception context it is reported as a hang)',
+    'C13_5': 'caught by C01 (two CAs of one stack sending to the same destination), not by C13 itself',
+    'C10_5': 'caught by C02, not by C10 itself',
 }
 rows = []
 for d in sorted(os.listdir(S)):
